@@ -112,6 +112,11 @@ def run_verus(unit, expanded, must_fail=False, sub="common"):
     cmd = ["verus", path, "--no-lifetime", "--output-json", "--time", "--error-format=json",
            "--multiple-errors", "20", "--rlimit", VERUS_RLIMIT, "--num-threads", "2"]
     p = subprocess.run(cmd, cwd=udir, stdout=subprocess.PIPE, stderr=subprocess.PIPE, text=True, env=ENV)
+    if not must_fail and ("Resource limit (rlimit) exceeded" in p.stderr or "rlimit" in p.stderr.lower() and "exceeded" in p.stderr.lower()):
+        # an unstable query that ran out of resources decides nothing; one retry with a four times larger budget before
+        # the obligation is reported as UNDECIDED
+        cmd = [c if c != VERUS_RLIMIT else str(int(VERUS_RLIMIT) * 4) for c in cmd]
+        p = subprocess.run(cmd, cwd=udir, stdout=subprocess.PIPE, stderr=subprocess.PIPE, text=True, env=ENV)
     wall = time.time() - t0
     try:
         js = json.loads(p.stdout)
